@@ -158,6 +158,16 @@ def _run(ck: core.Check, pool):
                 tasks.append({"level": "mixed", "case": case, "seed": rng.randrange(10**6)})
     except Exception as e:  # noqa: BLE001
         ck.broken("oracle", "C15 mixed-opset program generator", f"{type(e).__name__}: {str(e)[:200]}")
+    # fixed part: EVERY exception class (Exception subclasses; BaseException subclasses propagate by design) at the first
+    # and at a later backend call of a small program with a standard operator chain, a multi-output operator and an inlined model
+    fixed_prog = [{"op": "const", "how": "value", "dt": "i64", "shape": [3], "data": [3, 1, 2]},
+                  {"op": "const", "how": "init", "dt": "i64", "shape": [3], "data": [1, 1, 1]},
+                  {"op": "add", "args": [0, 1]}, {"op": "inline", "args": [2, 0]}, {"op": "unique", "args": [2]},
+                  {"op": "const", "how": "value", "dt": "i64", "shape": [1], "data": [-1]}, {"op": "reshape", "args": [3, 9]}]
+    for i in range(len(L.EXC_CLASSES)):
+        for sel in ("reference", "onnxruntime"):
+            tasks.append({"level": "program", "steps": fixed_prog, "sel": sel, "k": i % 4, "kind": "raise", "at": ("run", "init")[(i // 4) % 2],
+                          "exc_id": i})
     # fixed cases: constants spox propagates by itself (no backend): strings as str / UTF-8 bytes, NULs, non-ASCII
     fixed_consts = [
         [{"op": "const", "how": "value_string", "data": "ü", "bytes": True}],
